@@ -235,6 +235,109 @@ def run(ctx, prog):
     ctx.inst('C15.R3', 'kyrodb_server', 'engine search entry points are called only by the two executors',
              others == ['kyrodb_server::KyroDBServiceImpl::handle_search_request', 'kyrodb_server::KyroDBServiceImpl::handle_search_requests_batch'], 'callers: %s' % others)
 
+    # the engine refuses a query of the wrong dimension before it touches any tier — in all three search entry points (single, batch, timed). Left to the
+    # cold tier's own check, the timed path books the rejection as a tier failure: the request is answered OK with no results and three of them open
+    # the cold-tier circuit breaker for every later valid search
+    ENTRY = ['TieredEngine::knn_search_with_ef_detailed_scoped', 'TieredEngine::knn_search_batch_with_ef_detailed_scoped', 'TieredEngine::knn_search_with_timeouts_with_ef_scoped']
+    for fn in ENTRY:
+        root = ctx.body('C15.R3', fn)
+        if root is None:
+            continue
+        fam = prog.family(root)
+        G = None
+        for b in fam:
+            bv = flow.Origin(b, stop_at_vars=True)
+            preds = [(i_, tg, p) for i_, blk in enumerate(b.blocks) if blk['t']['k'] == 'switch' and i_ in b.live_blocks() for tg, p in flow.switch_edge_predicates(b, i_, bv)]
+            eq = [(i_, tg) for i_, tg, p in preds if re.match(r'^cmp\[\+ (?:slice|Vec)::len\((?:arg|var):query\) - var:backend_dim == 0\]$', p)]
+            if eq:
+                G = (b, eq, [(i_, tg) for i_, tg, p in preds if p == 'cmp[+ var:backend_dim == 0]'])
+                break
+        if G is None:
+            ctx.inst('C15.R3', root.short, 'a query of the wrong dimension is refused before any tier or cache is touched', False, 'no comparison of the query length with the cold tier\'s dimension in %s' % fn)
+            continue
+        g, eq, zero = G
+        bd = g.var_local('backend_dim')
+        bdo = flow.render(flow.Origin(g).of_local(bd[0])) if bd else ''
+        # a check inside a loop over the batch: every iteration passes it, and nothing after the loop is reached without the loop
+        chk = sorted(set(i_ for i_, _ in eq))
+        heads = [c for c in g.calls if c.callee and c.is_('re:Iterator>::next$') and all(g.dominates(c.bb, x) for x in chk) and any(c.bb in g.reach([x]) for x in chk)]
+        each = all(h.bb not in g.reach([h.to], avoid_blocks=chk, avoid_edges=zero) for h in heads)
+        r0 = g.reach([0], avoid_edges=eq + zero, avoid_blocks=[h.bb for h in heads]) | {0}
+        leak = []
+        n_s = 0
+        for x in fam:
+            sinks = [c for c in x.calls if c.callee and not c.exp and re.search(r'QueryHashCache::(get|find)\w*$|HotTier::knn_search\w*$|HnswBackend::knn_search\w*$', c.callee)]
+            for c in sinks:
+                n_s += 1
+                # where in g does this call (or the closure that contains it) originate?
+                cur, site = x, c.bb
+                while cur is not g and cur is not None:
+                    par = prog.bodies.get(cur.parent)
+                    site = None
+                    if par is not None:
+                        for i_, blk in enumerate(par.blocks):
+                            if any(st.get('rv', {}).get('k') == 'agg' and st['rv'].get('def') == cur.id for st in blk['s']):
+                                site = i_
+                    cur = par
+                if cur is None or site is None:
+                    leak.append('%s in %s (not under the body that holds the check)' % (flow.short(c.callee), x.short.split('::')[-1]))
+                elif site in r0:
+                    leak.append('%s at %s' % (flow.short(c.callee), c.loc))
+        ctx.inst('C15.R3', root.short, 'a query of the wrong dimension is refused before any tier or cache is touched', 'HnswBackend::dimension(' in bdo and not leak and n_s > 0 and each,
+                 ('%s is reachable without the dimension comparison' % leak[0]) if leak else
+                 'guard edges %d (+%d for an unconfigured index)%s; %d tier / cache calls behind them' % (len(eq), len(zero), ', checked per query of the batch' if heads else '', n_s))
+    # what the engine hands to the cold tier satisfies the cold tier's own validation: the engine accepts k ≤ K and over-fetches (k·2) for the merge; the
+    # cold tier refuses k above its limit, and in the timed path that refusal is booked as a TIER FAILURE (answer OK with hot-tier results only, breaker
+    # count +1). So the candidate count passed down must be provably ≤ the cold tier's limit for every k the engine accepts
+    from kvstatic import bounds as _bounds
+    cold_limit = None
+    for nm in ('HnswBackend::knn_search_with_ef_cancel', 'HnswBackend::knn_search_batch'):
+        cb_ = ctx.body('C15.R3', nm)
+        if cb_ is None:
+            continue
+        cv_ = flow.Origin(cb_, stop_at_vars=True)
+        lims = [int(m_.group(1)) - 1 for i_, blk in enumerate(cb_.blocks) if blk['t']['k'] == 'switch' for tg, p in flow.switch_edge_predicates(cb_, i_, cv_)
+                for m_ in [re.match(r'^cmp\[\+ arg:k >= (\d+)\]$', p)] if m_]
+        if lims:
+            cold_limit = min(lims) if cold_limit is None else min(cold_limit, min(lims))
+    n_k = 0
+    for fn in ENTRY:
+        root = ctx.body('C15.R3', fn)
+        if root is None or cold_limit is None:
+            continue
+        # the engine's own bound on k in this entry point
+        kmax = None
+        for b in prog.family(root):
+            bv = flow.Origin(b, stop_at_vars=True)
+            for i_, blk in enumerate(b.blocks):
+                if blk['t']['k'] == 'switch':
+                    for tg, p in flow.switch_edge_predicates(b, i_, bv):
+                        m_ = re.match(r'^cmp\[\+ (?:arg|var):k >= (\d+)\]$', p)
+                        if m_:
+                            kmax = int(m_.group(1)) - 1 if kmax is None else min(kmax, int(m_.group(1)) - 1)
+        for b in prog.family(root):
+            bo = flow.Origin(b)
+            for c in b.calls:
+                if c.callee and not c.exp and re.search(r'HnswBackend::knn_search\w*$', c.callee) and len(c.args) > 2:
+                    n_k += 1
+                    e = bo.of_operand(c.args[2])
+                    # inline a local helper (cold_tier_candidates(k))
+                    if e[0] == 'call' and prog.resolve_local(e[1]) is not None and len(e[2]) == 1:
+                        hb = prog.resolve_local(e[1])
+                        he = flow.Origin(hb).of_local(0)
+                        is_k = lambda x, hb=hb: x[0] == 'arg' and x[1] == 1
+                        ub = _bounds.Bounds(is_k).ub(he)
+                        shown = '%s = %s' % (flow.short(e[1]), flow.render(he)[:70])
+                    else:
+                        is_k = lambda x: x[0] in ('arg', 'var') and x[2] == 'k' or (x[0] == 'field' and False) or flow.render(x) in ('arg:k', 'cap:k', 'var:k')
+                        ub = _bounds.Bounds(is_k).ub(e)
+                        shown = flow.render(e)[:70]
+                    ok = ub is not None and kmax is not None and ub[0] * kmax + ub[1] <= cold_limit
+                    ctx.inst('C15.R3', root.short, 'candidate count handed to the cold tier never exceeds what the cold tier accepts', ok,
+                             'k ≤ %s accepted by the engine; passes %s ≤ %s; the cold tier refuses above %d%s' % (
+                                 kmax, shown, ('%s·k%+d' % (ub[0], int(ub[1]))) if ub else 'no bound', cold_limit,
+                                 '' if ok else ' — a valid search with a large k is refused by the cold tier, answered from the hot tier only and counted as a cold-tier failure'))
+    ctx.floor('C15.R3', 'k arguments handed to the cold tier', n_k, 3, 'single, batch, timed')
     # ------------------------------------------------------------------ R4
     ctx.rule('C15.R4', 'batch bounds: bulk_insert, bulk_load_hnsw, bulk_search, bulk_query and batch_delete (ids) each compare the batch size with '
                        'MAX_BATCH_SIZE / MAX_TOTAL_BULK_LOAD_DOCUMENTS before the engine call or the queue push')
